@@ -63,10 +63,11 @@ func (c *Client) Guard(mut time.Duration) {
 	c.MutWatchdog, c.FailFast = mut, true
 }
 
-// OnUnanswered, when set, is called each time a request got no answer within its watchdog, before the caller sees the
-// response. Checks whose emulator runs in this process use it to tell a stuck handler from a slow machine (gcscheck:
+// OnUnanswered, when set, is called each time a watchdog period of a request ends without an answer (period 0, 1, 2).
+// It reports whether the request is to be given up as unanswered (true) or waited for another period (false). Checks
+// whose emulator runs in this process use it to tell a stuck handler from a slow or suspended machine (gcscheck:
 // hangConfirm); it may end the process.
-var OnUnanswered func(desc string)
+var OnUnanswered func(desc string, period int) bool
 
 // Unanswered is the number of requests on this client that got no answer within their watchdog.
 func (c *Client) Unanswered() int64 { return c.unanswered.Load() }
@@ -167,7 +168,7 @@ func (c *Client) do(watchdog time.Duration, method, target string, hdr [][2]stri
 			target += "?" + query
 		}
 	}
-	ctx, cancel := context.WithTimeout(context.Background(), watchdog)
+	ctx, cancel := context.WithCancel(context.Background())
 	defer cancel()
 	req, err := http.NewRequestWithContext(ctx, method, c.Base+target, rd)
 	if err != nil {
@@ -180,43 +181,57 @@ func (c *Client) do(watchdog time.Duration, method, target string, hdr [][2]stri
 		req.Header.Set(h[0], h[1])
 	}
 	c.count("requests")
-	unanswered := func(status int) *Resp {
+	done := make(chan *Resp, 1)
+	go func() {
+		rsp, err := c.hc.Do(req)
+		if err != nil {
+			done <- &Resp{Err: err.Error()}
+			return
+		}
+		defer rsp.Body.Close()
+		b, err := io.ReadAll(rsp.Body)
+		if err != nil {
+			done <- &Resp{Status: rsp.StatusCode, Header: rsp.Header, Body: b, Err: "reading body: " + err.Error()}
+			return
+		}
+		done <- &Resp{Status: rsp.StatusCode, Header: rsp.Header, Body: b}
+	}()
+	// The watchdog is a real-time bound. Its expiry alone proves nothing on a loaded (or briefly suspended) machine:
+	// OnUnanswered looks at the emulator's handlers; while none of them is blocked the request is waited for again, up
+	// to three periods in all.
+	for period := 0; ; period++ {
+		timer := time.NewTimer(watchdog)
+		select {
+		case r := <-done:
+			timer.Stop()
+			if r.Err != "" {
+				c.count("transport_errors")
+			} else {
+				c.count(fmt.Sprintf("responses_%dxx", r.Status/100))
+			}
+			return r
+		case <-timer.C:
+		}
 		t := target
 		if len(t) > 300 {
 			t = t[:300] + "..."
 		}
-		msg := fmt.Sprintf("request not answered within %s: %s %s", watchdog, method, t)
-		if status != 0 {
-			msg += fmt.Sprintf(" (status line %d arrived, the body did not end)", status)
+		msg := fmt.Sprintf("request not answered within %s: %s %s", time.Duration(period+1)*watchdog, method, t)
+		stuck := true
+		if OnUnanswered != nil {
+			stuck = OnUnanswered(msg, period)
 		}
+		if !stuck && period < 2 {
+			c.count("watchdog_expiries_with_no_blocked_handler_waited_on")
+			continue
+		}
+		cancel()
 		if c.unanswered.Add(1) == 1 {
 			c.firstUnanswered.Store(msg)
 		}
 		c.count("requests_not_answered_within_watchdog")
-		if OnUnanswered != nil {
-			OnUnanswered(msg)
-		}
 		return &Resp{Err: msg, Unanswered: watchdog}
 	}
-	rsp, err := c.hc.Do(req)
-	if err != nil {
-		c.count("transport_errors")
-		if ctx.Err() == context.DeadlineExceeded {
-			return unanswered(0)
-		}
-		return &Resp{Err: err.Error()}
-	}
-	defer rsp.Body.Close()
-	b, err := io.ReadAll(rsp.Body)
-	if err != nil {
-		c.count("transport_errors")
-		if ctx.Err() == context.DeadlineExceeded {
-			return unanswered(rsp.StatusCode)
-		}
-		return &Resp{Status: rsp.StatusCode, Header: rsp.Header, Body: b, Err: "reading body: " + err.Error()}
-	}
-	c.count(fmt.Sprintf("responses_%dxx", rsp.StatusCode/100))
-	return &Resp{Status: rsp.StatusCode, Header: rsp.Header, Body: b}
 }
 
 func (r *Resp) OK() bool { return r.Err == "" && r.Status >= 200 && r.Status < 300 }
